@@ -4,7 +4,9 @@ Correspondence between bermuda.utils.{bootstrap, thin, moment_match} (+ maximum_
 _sort_x_on_y_rank) and the Lean model (drv_c17); the Lean Spec predicates run on the
 IMPLEMENTATION's outputs. numpy's RNG is outside the model: `np.random.default_rng` (Generator
 .choice/.uniform) and `np.random.normal/lognormal/gamma` are wrapped in this process, what they
-return is recorded and handed to the model as a parameter.
+return is recorded and handed to the model as a parameter. Everything deterministic given the draws is
+inside: the arithmetic of maximum_entropy_ensemble (Model/ResampleME.lean), the empirical age-to-age factors and
+the chained product (Model/ResampleATA.lean), the moments handed to moment_match's sampler.
 """
 import dataclasses
 import datetime
@@ -32,8 +34,13 @@ class RngRecorder:
 
     LEGACY = ("normal", "lognormal", "gamma")
 
+    def __init__(self, identity=False):
+        # identity: every weighted `choice(range(m), size=m, p=p, replace=True)` answers [0, 1, ..., m-1]
+        # (each period keeps its own factors) — the RNG is a parameter, this is one of its values
+        self.identity = identity
+
     def __enter__(self):
-        self.gens, self.legacy = [], []
+        self.gens, self.legacy, self.legacy_args = [], [], []
         self.orig = np.random.default_rng
         self.orig_legacy = {k: getattr(np.random, k) for k in self.LEGACY}
         rec = self
@@ -44,6 +51,8 @@ class RngRecorder:
 
             def choice(s, *a, **k):
                 r = s._g.choice(*a, **k)
+                if rec.identity and k.get("p") is not None and k.get("replace", True):
+                    r = np.arange(int(k["size"]))
                 s.log.append(("choice", np.atleast_1d(r).tolist()))
                 return r
 
@@ -64,6 +73,7 @@ class RngRecorder:
             def f(*a, **k):
                 r = rec.orig_legacy[name](*a, **k)
                 rec.legacy.append((name, np.atleast_1d(r).tolist()))
+                rec.legacy_args.append((name, a, dict(k)))
                 return r
             return f
 
@@ -93,12 +103,21 @@ FACT_F = [1.0, 1.5, 2.0, 1.25, 3.0, 0.5, 0.75]
 FACT_I = [1, 2, 3]
 
 
-def layout(rng):
+def layout(rng, shape=None):
     """(rows, shape): month-aligned periods of `res` months, lags spaced by `res`"""
     res = rng.choice([1, 3, 6, 12])
-    shape = rng.choice(["square", "square", "triangle", "triangle", "row", "column", "diagonal", "single"])
+    shape = shape or rng.choice(["square", "square", "triangle", "triangle", "row", "column", "diagonal", "single",
+                                 "stub", "row15", "longrow"])
     P, L = rng.randrange(2, 7), rng.randrange(2, 7)
-    if shape == "row":
+    if shape == "longrow":                  # size threshold: a 40/48-cell series through maximum entropy
+        res, P, L = 1, 1, rng.choice([40, 48])
+    if shape == "row15":
+        # ONE period, evaluation dates on the 15th (off the month grid): fractional development lags
+        ps = D(rng.randrange(1995, 2030), rng.randrange(1, 13), 1)
+        pe = gen.add_months_int(ps, res - 1, end=True)
+        first = gen.add_months_int(pe, 1, end=True)
+        return [(ps, pe, [gen.add_months_int(first, k * res, end=True).replace(day=15) for k in range(L)])], shape
+    if shape in ("row", "longrow"):
         P = 1
     if shape == "column":
         L = 1
@@ -111,28 +130,44 @@ def layout(rng):
     for p in range(P):
         ps = gen.add_months_int(start, p * res)
         pe = gen.add_months_int(ps, res - 1, end=True)
-        if shape in ("square", "row", "column", "single"):
+        if shape in ("square", "row", "column", "single", "stub", "longrow"):
             lags = list(range(L))
         elif shape == "triangle":
             lags = list(range(max(1, min(L, P - p))))
         else:
             lags = [P - 1 - p]
         rows.append((ps, pe, [gen.add_months_int(pe, (k + first_lag) * res, end=True) for k in lags]))
+    if shape == "stub" and len(rows) >= 2:
+        # NON-DISJOINT periods: the second period starts where the first does and ends one period later
+        # (a year-to-date row next to its first stub): `period` = (start, end) must not be keyed by start alone
+        ps0 = rows[0][0]
+        rows[1] = (ps0, rows[1][1], rows[1][2])
     return rows, shape
 
 
-def boot_triangle(rng):
-    n_slices = rng.choice([1, 1, 2, 3])
+def boot_triangle(rng, late=False):
+    """late: 3-5 slices, the early ones share ONE layout (hence one bootstrap method), the LAST one has a shape
+    that routes it to the other method (lesson: late difference)"""
+    n_slices = rng.choice([3, 4, 5]) if late else rng.choice([1, 1, 2, 3])
     metas = gen.rand_metas(rng, n_slices, single_attr=rng.random() < 0.7)
     kind = rng.choice(["C", "U"])
     cls = Cell if kind == "C" else CumulativeCell
     fields = rng.sample(gen.FIELDS, rng.randrange(1, 4))
-    fkind = {f: rng.choice(["float", "float", "int", "zero" if len(fields) > 1 else "float"]) for f in fields}
-    same = rng.random() < 0.5
-    rows, shape = layout(rng)
+    fkind = {f: rng.choice(["float", "float", "int", "zero" if len(fields) > 1 else "float",
+                            "fzero" if len(fields) > 1 else "int"]) for f in fields}
+    same = late or rng.random() < 0.5
+    if late:
+        early = rng.choice(["square", "triangle", "stub", "row", "column"])
+        rows, shape = layout(rng, early)
+        last_shape = rng.choice(["row", "column", "diagonal", "single", "row15"]) if early in ("square", "triangle", "stub") \
+            else rng.choice(["square", "triangle"])
+    else:
+        rows, shape = layout(rng)
     cells, shapes = [], []
-    for m in metas:
-        if not same:
+    for mi, m in enumerate(metas):
+        if late and mi == len(metas) - 1:
+            rows, shape = layout(rng, last_shape)
+        elif not same:
             rows, shape = layout(rng)
         shapes.append(shape)
         for ps, pe, evals in rows:
@@ -140,6 +175,8 @@ def boot_triangle(rng):
             for f in fields:
                 if fkind[f] == "zero":
                     v[f] = 0
+                elif fkind[f] == "fzero":
+                    v[f] = 0.0                     # falsy in EVERY cell of EVERY slice, as a float
                 elif fkind[f] == "int":
                     v[f] = (1 << rng.randrange(0, 6)) * rng.choice([1, 3, 5, 7])
                 else:
@@ -148,6 +185,9 @@ def boot_triangle(rng):
                 cells.append(cls(ps, pe, ev, dict(v), m))
                 v = {f: (x * rng.choice(FACT_I) if fkind[f] == "int" else x * rng.choice(FACT_F) if fkind[f] == "float" else x)
                      for f, x in v.items()}
+                if shape == "longrow":             # keep a 40-48 step series inside exactly representable doubles
+                    v = {f: (x if fkind[f] in ("zero", "fzero") else type(x)(1 + (abs(x) * 3 + 1) % 1021))
+                         for f, x in v.items()}
     rng.shuffle(cells)
     return Triangle(cells), fields, shapes, kind
 
@@ -156,50 +196,65 @@ def tag(md, i):
     return dataclasses.replace(md, details={**md.details, "bootstrap": i})
 
 
-def safe_div(x, y):
-    sx = 1 if x is None or not x else x
-    sy = 1 if y is None or not y else y
-    return sx / sy
-
-
 def slice_params(sl, fields, gen_log, n, reps):
-    """the draws of one slice as model parameters: per replicate {'F':..} or {'qs':..}"""
+    """the draws of one slice as model parameters, exactly as numpy returned them: per replicate {'I': index draws
+    per lag and field} (age-to-age; the model computes the empirical factors itself) or {'qs': ..} (maximum
+    entropy: the implementation's own sorted quantiles, fixed-point check) + the uniform draws per field"""
     kinds = {k for k, _ in gen_log}
     out = []
     if kinds == {"choice"}:
         lags = sorted({c.dev_lag() for c in sl})
-        periods = sorted({c.period for c in sl})
-        by = {(c.period, c.dev_lag()): c for c in sl}
-        ratios = {}
-        for lag, prev in zip(lags[1:], lags[:-1]):
-            ratios[lag] = {f: [safe_div(by[(p, lag)].values.get(f), by[(p, prev)].values.get(f))
-                               for p in periods if (p, lag) in by and (p, prev) in by] for f in fields}
         it = iter(gen_log)
         for i in range(n):
-            F = []
+            I = []
             for lag in lags[1:]:
                 tbl = []
                 for f in fields:
                     _, idx = next(it)
-                    tbl.append([f, rats([ratios[lag][f][j] for j in idx])])
-                F.append([w_rat(lag), tbl])
-            out.append({"F": F})
-        return out, "atas"
+                    tbl.append([f, [int(j) for j in idx]])
+                I.append([w_rat(lag), tbl])
+            out.append({"I": I})
+        return out, "atas", None
+    uniforms = [v for k, v in gen_log if k == "uniform"]
+    U = {}
     for i in range(n):
         qs = []
         if reps is not None and i < len(reps):
             md = tag(sl.cells[0].metadata, i)
             rc = [c for c in reps[i] if c.metadata == md]
-            for f in fields:
+            for fi, f in enumerate(fields):
                 vals = [c.values.get(f) for c in rc]
                 if all(isinstance(v, (int, float, np.integer, np.floating)) and not isinstance(v, bool) for v in vals):
                     qs.append([f, rats(sorted(float(v) for v in vals))])
+                k = i * len(fields) + fi
+                U[(i, f)] = (uniforms[k] if k < len(uniforms) else None, vals)
         out.append({"qs": qs})
-    return out, "maximum_entropy"
+    return out, "maximum_entropy", U
+
+
+def num_wire(v):
+    from common import w_val
+    return w_val(v.item() if isinstance(v, np.generic) else v)
+
+
+def me_scale(xs, L):
+    vals = [abs(float(v)) for v in xs if v is not None] + ([abs(float(L[0])), abs(float(L[1]))] if L else [])
+    return max(vals + [1e-300])
+
+
+def me_request(xs, U, L, impl_vals):
+    """request for the Lean model of maximum_entropy_ensemble; tolerance 2^-40 relative to the magnitude of the
+    series and its limits (float64 division / linspace in the implementation, exact rationals in the model)"""
+    tol = Fraction(me_scale(xs, L)) / (1 << 40)
+    numeric = impl_vals is not None and all(v is not None for v in impl_vals) and all(v is not None for v in xs)
+    return {"op": "me", "xs": [num_wire(v) for v in xs], "U": rats([float(u) for u in U]),
+            "L": None if L is None else rats([float(L[0]), float(L[1])]), "tol": w_rat(tol),
+            "impl": rats([float(v) for v in impl_vals]) if numeric and len(xs) > 1 and
+            not all(xs[0] == v for v in xs[1:]) else None}
 
 
 def distinct_arr(rng, N, kind):
-    vals = rng.sample(range(1, 4096), N)
+    vals = rng.sample(range(1, max(4096, 8 * N)), N)
     if kind == "iarr":
         return np.array(vals, dtype=np.int64)
     return np.array([v / 8 for v in vals], dtype=np.float64)
@@ -338,6 +393,173 @@ def me_guards(ctx, rng, n):
                 ctx.disagree("maximum_entropy_ensemble guards (meEnsembleRaw): value", case, model, impl)
 
 
+ME_FLAVOURS = ["int", "float", "float", "negative", "near-constant", "ties", "uneven", "mixed", "sorted", "reversed",
+               "constant"]
+
+
+def me_series(rng, n, flavour):
+    if flavour == "int":
+        return [rng.randrange(1, 400) for _ in range(n)]
+    if flavour == "negative":
+        return [rng.randrange(-16384, 16384) / 8 for _ in range(n)]
+    if flavour == "near-constant":
+        base = rng.choice([1000.0, 0.5, -250.0, 4096.0])
+        xs = [base + rng.randrange(0, 4) / (1 << 20) for _ in range(n)]
+        xs[rng.randrange(n)] = base + 5 / (1 << 20)            # never exactly constant unless n == 1
+        return xs
+    if flavour == "ties":
+        pool = [rng.randrange(1, 64) / 4 for _ in range(max(2, n // 3))]
+        return [rng.choice(pool) for _ in range(n)]
+    if flavour == "uneven":
+        return [2.0 ** rng.randrange(-10, 21) * rng.choice([1, 3, 5]) for _ in range(n)]
+    if flavour == "mixed":
+        return [rng.choice([rng.randrange(1, 500), rng.randrange(1, 4096) / 8]) for _ in range(n)]
+    if flavour == "constant":
+        v = rng.choice([2, 2.5, 0, -3.0])
+        return [v] * n
+    xs = [rng.randrange(1, 32768) / 8 for _ in range(n)]
+    if flavour == "sorted":
+        xs.sort()
+    if flavour == "reversed":
+        xs.sort(reverse=True)
+    return xs
+
+
+def me_limits(rng, xs, which):
+    lo, hi = min(xs), max(xs)
+    if which == "none":
+        return None
+    if which == "boot":
+        return (0, hi)                                         # what bootstrap passes (0 is an int there)
+    if which == "tight":
+        return (lo, hi)
+    if which == "wide":
+        return (lo - rng.randrange(0, 64) / 4, hi + rng.randrange(0, 64) / 4)
+    if which == "lopsided":
+        return (lo - rng.randrange(8, 4096) / 4, hi + rng.randrange(0, 3) / 4)
+    return (lo + (hi - lo) / 4, hi - (hi - lo) / 8)            # "inside": limits INSIDE the data (as the code takes them)
+
+
+def me_draws(rng, n, how):
+    if how == "grid":
+        # draws ON the grid points i/n and just below them (side="right"); exact only when n is a power of two
+        U = []
+        for _ in range(n):
+            i = rng.randrange(0, n)
+            U.append(rng.choice([i / n, float(np.nextafter(i / n, 0)) if i else 0.0, 0.0,
+                                 float(np.nextafter(1.0, 0))]))
+        return U
+    if how == "dup":
+        pool = [rng.random() for _ in range(max(1, n // 2))]
+        return [rng.choice(pool) for _ in range(n)]
+    if how == "extra":
+        return [rng.random() for _ in range(n + rng.randrange(1, 4))]
+    return [rng.random() for _ in range(n)]
+
+
+def me_arith(ctx, rng, count, reqs, post):
+    """maximum_entropy_ensemble against the Lean model of its WHOLE arithmetic (Model/ResampleME.lean): direct calls
+    with series of 1/2/3/.../40/256/1000 values (constant, near-constant, tied, negative, unevenly spaced, int /
+    float / mixed), limits None / (0, max) / tight / wide / lopsided / inside the data, draws random / on the grid
+    points / duplicated / more than values / (rarely) outside [0, 1)."""
+    sizes = [1, 2, 2, 2, 3, 3, 3, 4, 5, 6, 7, 8, 8, 11, 16, 16]
+    big = [40, 40, 256] + ([256, 1000, 1000] if ctx.thorough else [1000])
+    plan = big + [rng.choice(sizes) for _ in range(max(0, count - len(big)))]
+    prev = None
+    for ci, n in enumerate(plan):
+        flavour = rng.choice(ME_FLAVOURS) if n < 40 else rng.choice(["float", "int", "negative", "ties", "uneven"])
+        xs = me_series(rng, n, flavour)
+        if prev is not None and rng.random() < 0.15 and len(prev[0]) < 40:
+            # TWIN: same length, limits kind and draws as the previous call, different values
+            xs, flavour = [v * 2 + 1 for v in prev[0]], "twin"
+            n = len(xs)
+        pow2 = n & (n - 1) == 0
+        how = rng.choice(["random", "random", "random", "dup", "extra"] + (["grid", "grid"] if pow2 else []))
+        which = rng.choice(["none", "none", "boot", "boot", "tight", "wide", "lopsided", "inside"])
+        L = me_limits(rng, xs, which)
+        U = prev[1] if flavour == "twin" and len(prev[1]) >= n else me_draws(rng, n, how)
+        oor = None
+        if n > 1 and rng.random() < 0.06:
+            oor = rng.choice([1.0, 1.5, -0.25, -1.0])         # the guard `0 > u > 1` is dead: no ValueError
+            U[rng.randrange(len(U))] = oor
+        x_in, U_in = list(xs), list(U)
+        st, r = call(maximum_entropy_ensemble, x_in, U_in, L)
+        ctx.count(f"me-arith/n={n if n in (1, 2, 3, 40, 256, 1000) else 'other'}")
+        ctx.count(f"me-arith/series={flavour}")
+        ctx.count(f"me-arith/L={which}")
+        ctx.count(f"me-arith/U={how}" + ("+out-of-range" if oor is not None else ""))
+        shown = {"x": xs, "U": U, "L": L}
+        ctx.case(digest=json.dumps(["me-arith", xs, U, L]), nontrivial=n > 1 and len(set(xs)) > 1,
+                 sample={"op": "maximum_entropy_ensemble", "n": n, "series": flavour, "L": which, "U": how}
+                 if ci in (0, 5) else None)
+        if x_in != list(xs) or U_in != list(U):
+            ctx.fail("maximum_entropy_ensemble mutated its arguments", shown, {"x": x_in[:8], "U": U_in[:8]})
+        if st == "ok":
+            impl_vals = list(r)
+            d = {"ok": [num_wire(v) for v in impl_vals]}
+            # SEQUENCE: ruin the result, call again on the same objects
+            if n > 1 and len(set(xs)) > 1 and rng.random() < 0.3:
+                try:
+                    r[0] = -12345.0
+                except Exception:  # noqa: BLE001
+                    pass
+                st2, r2 = call(maximum_entropy_ensemble, x_in, U_in, L)
+                if st2 != "ok" or [num_wire(v) for v in r2] != d["ok"]:
+                    ctx.fail("maximum_entropy_ensemble: second call on the same arguments differs", shown, {"first": d})
+                ctx.count("sequence/me-twice")
+            if L is not None and len(set(xs)) > 1 and (min(impl_vals) < L[0] or max(impl_vals) > L[1]):
+                ctx.count("me-arith/outside-L")                # see post-processing: allowed only when limitsBind is false
+        else:
+            impl_vals, d = None, {"err": r}
+        reqs.append(me_request(xs, U, L, impl_vals))
+        post.append(("me", {"stream": "direct", **shown}, d))
+        prev = (xs, U)
+
+
+D26_TEXT = ("maximum_entropy_ensemble returns values outside the given limits L when the mean-preserving shift of an outer "
+            "interval exceeds the slack the limit leaves (Resample.limitsBind false), e.g. bootstrap of the single row "
+            "[100, 110, 115, 118] with L = (0, max x) yields 149.46 > 118")
+
+
+def sampler_args(ctx, reqs, post, arr, rec_args, dist, shown):
+    """what moment_match asks numpy's sampler for (deterministic given the source array): the array's mean,
+    POPULATION variance and length. normal: loc, scale**2; gamma: shape*scale, shape*scale**2 (exact products of the
+    recorded doubles) — both against Spec.C17.momentsOk over exact rationals, tolerance 2^-40 / 2^-34 relative
+    (np.mean / np.var summation, one sqrt or two divisions). lognormal: NUMERIC ONLY (log / sqrt)."""
+    name, a, k = rec_args
+    if name is None or arr.size < 2:
+        return
+    size = k.get("size", a[2] if len(a) > 2 else None)
+    d = [float(x) for x in arr.tolist()]
+    mu, var = float(np.mean(arr)), float(np.var(arr))
+    ctx.count(f"moment/sampler-args={name}")
+    if name != dist:
+        ctx.fail("moment_match: a different sampler than the requested distribution was called", shown, {"called": name})
+        return
+    if name == "lognormal":
+        m, sg = float(k.get("mean", a[0] if a else 0.0)), float(k.get("sigma", a[1] if len(a) > 1 else 0.0))
+        d_mean = float(np.exp(m + sg * sg / 2))
+        d_var = float((np.exp(sg * sg) - 1) * np.exp(2 * m + sg * sg))
+        ctx.count("numeric-only/lognormal-parameters")
+        if abs(d_mean - abs(mu)) > 1e-9 * max(1.0, abs(mu)) or abs(d_var - var) > 1e-8 * max(1.0, var) or size != arr.size:
+            ctx.fail("moment_match: lognormal parameters do not reproduce the sample mean / variance (numeric check)",
+                     shown, {"distribution_mean_var": [d_mean, d_var], "sample_mean_var": [mu, var], "size": size})
+        return
+    if name == "normal":
+        loc, sc = k.get("loc", a[0] if a else None), k.get("scale", a[1] if len(a) > 1 else None)
+        g_mean, g_var = Fraction(float(loc)), Fraction(float(sc)) ** 2
+    else:
+        sh, sc = k.get("shape", a[0] if a else None), k.get("scale", a[1] if len(a) > 1 else None)
+        g_mean, g_var = Fraction(float(sh)) * Fraction(float(sc)), Fraction(float(sh)) * Fraction(float(sc)) ** 2
+    scale = max(abs(x) for x in d)
+    tolM = Fraction(scale) / (1 << 40)
+    tolV = Fraction(max(var, scale * scale / (1 << 20))) / (1 << 34)
+    reqs.append({"op": "moments", "d": rats(d),
+                 "impl": {"mean": w_rat(g_mean), "var": w_rat(g_var), "n": int(size) if size is not None else 0,
+                          "tolM": w_rat(tolM), "tolV": w_rat(tolV)}})
+    post.append(("moments", shown, {"ok": {"sampler": name, "mean": float(g_mean), "var": float(g_var), "size": size}}))
+
+
 def correspondence(ctx):
     rng = ctx.rng
     reqs, post = [], []
@@ -347,8 +569,10 @@ def correspondence(ctx):
     for ci in range(n_rank):
         n = rng.randrange(1, 9)
         ties = rng.random() < 0.35
-        xs = [rng.randrange(0, 6 if ties else 4096) / 4 for _ in range(n)]
-        which = rng.choice(["me", "me-L", "sort_x_on_y"])
+        if ci < 4:
+            n, ties = [40, 256, 1000, 256][ci], ci == 3        # size thresholds (numpy sort kernels, list paths)
+        xs = [rng.randrange(0, (n // 2 + 2) if ties else 4096 * max(1, n // 64)) / 4 for _ in range(n)]
+        which = rng.choice(["me", "me-L", "sort_x_on_y"]) if ci >= 4 else "sort_x_on_y"
         ctx.count(f"rank/{which}")
         if which == "sort_x_on_y":
             if len(set(xs)) < len(xs):
@@ -391,75 +615,57 @@ def correspondence(ctx):
 
     me_guards(ctx, rng, 400 if ctx.thorough else 80)
 
+    me_arith(ctx, rng, 700 if ctx.thorough else 90, reqs, post)
+
     # (ii) bootstrap ----------------------------------------------------------------------------------
-    n_boot = 2500 if ctx.thorough else 170
-    for ci in range(n_boot):
-        t, fields, shapes, kind = boot_triangle(rng)
-        n = rng.choice([1, 2, 3])
-        seed = rng.randrange(1 << 31)
-        sel_kind = rng.choice(["none", "none", "str", "subset", "all"])
-        all_fields = sorted(fields)
-        if sel_kind == "none":
-            field, sel = None, all_fields
-        elif sel_kind == "str":
-            f = rng.choice(all_fields)
-            field, sel = f, [f]
-        elif sel_kind == "subset":
-            k = rng.randrange(1, len(all_fields) + 1)
-            sel = rng.sample(all_fields, k)
-            field = list(sel)
-        else:
-            sel = list(all_fields)
-            rng.shuffle(sel)
-            field = list(sel)
-        if rng.random() < 0.04:
-            n = rng.choice([0, -1])
-        seq = "plain"
-        if rng.random() < 0.3:
-            # SEQUENCE: bootstrap a triangle that is itself the result of thin (a scalar triangle has one
-            # "sample"; k = 0 gives a fresh copy) after its accessors were read
-            accessors(t)
-            st0, t0 = call(thin, t, 0, 3)
-            if st0 == "ok" and t0 is not t and w_cells(t0.cells) == w_cells(t.cells):
-                check_accessors(ctx, t0, "thin(k=0) of a scalar triangle", {"t": w_cells(t.cells)})
-                t, seq = t0, "bootstrap-of-thinned"
-            else:
-                ctx.fail("thin(t, 0) of a scalar triangle must be a fresh triangle with the same cells",
-                         {"t": w_cells(t.cells)}, {"impl": st0})
-        ctx.count(f"bootstrap/sequence={seq}")
+    def boot_case(t, fields, shapes, n, seed, field, sel, sel_kind, stream, identity=False, default_field=False,
+                  sample=False):
         before = accessors(t)
-        with RngRecorder() as rec:
-            res = call(bootstrap, t, n, seed, field)
+        with RngRecorder(identity=identity) as rec:
+            if default_field:
+                res = call(bootstrap, t, n, seed)               # default argument, not field=None
+            else:
+                res = call(bootstrap, t, n, seed, field)
         st, reps = res
         d = {"ok": [w_cells(r.cells) for r in reps]} if st == "ok" else {"err": reps}
         slices = list(t.slices.values())
-        P, methods = [], []
+        P, methods, me_draws_of = [], [], []
         if n > 0 and len(rec.gens) == len(slices):
             for sl, g in zip(slices, rec.gens):
-                p, mth = slice_params(sl, sel if field is not None else sl.fields, g.log, n,
-                                      reps if st == "ok" else None)
+                p, mth, U = slice_params(sl, sel if field is not None else sl.fields, g.log, n,
+                                         reps if st == "ok" else None)
                 P.append(p)
                 methods.append(mth)
-        for mth, shp in zip(methods, shapes):
+                me_draws_of.append((sl, U))
+        if n > 0 and st == "ok" and len(rec.gens) != len(slices):
+            ctx.fail("bootstrap: one np.random.default_rng(seed) per slice is expected (identical for identical seeds); "
+                     "a different number of generators was created", {"t": w_cells(t.cells), "n": n, "seed": seed},
+                     {"generators": len(rec.gens), "slices": len(slices)})
+        for mth in methods:
             ctx.count(f"bootstrap/method={mth}")
+        if len(set(methods)) > 1:
+            ctx.count("bootstrap/methods-mixed" + ("-late" if methods and methods[-1] != methods[0] and
+                                                   len(set(methods[:-1])) == 1 else ""))
         for shp in shapes:
             ctx.count(f"bootstrap/shape={shp}")
         ctx.count(f"bootstrap/slices={len(slices)}")
         ctx.count(f"bootstrap/field={sel_kind}")
-        ctx.count(f"bootstrap/n={n}")
+        ctx.count(f"bootstrap/n={n if n < 4 else 'large'}")
+        ctx.count(f"bootstrap/stream={stream}")
+        ctx.count(f"bootstrap/seed={'None' if seed is None else '0' if seed == 0 else 'random'}")
         ctx.count("bootstrap/" + ("ok" if st == "ok" else reps))
         wire_t = w_cells(t.cells)
-        shown = {"t": wire_t, "n": n, "seed": seed, "field": field}
-        ctx.case(digest=json.dumps([canon(wire_t), n, field], sort_keys=True), nontrivial=len(t) > 1,
+        shown = {"t": wire_t, "n": n, "seed": seed, "field": field, "stream": stream}
+        ctx.case(digest=json.dumps([canon(wire_t), n, field, stream], sort_keys=True), nontrivial=len(t) > 1,
                  sample={"op": "bootstrap", "cells": len(t), "slices": len(slices), "shapes": shapes, "n": n,
-                         "field": sel_kind} if ci < 3 else None)
+                         "field": sel_kind, "stream": stream} if sample else None)
         if accessors(t) != before:
             ctx.fail("bootstrap changed the derived accessors of its INPUT", {"t": w_cells(t.cells), "n": n})
         if st == "ok":
-            for r in reps:
+            for r in reps[:6]:
                 check_accessors(ctx, r, "bootstrap replicate", {"t": w_cells(t.cells), "n": n, "seed": seed, "field": field})
-        if st == "ok" and n > 0:
-            # same seed => same replicates
+        if st == "ok" and n > 0 and seed is not None and not identity:
+            # same seed => same replicates (also after the first result's cells were read)
             st2, reps2 = call(bootstrap, t, n, seed, field)
             d2 = {"ok": [w_cells(r.cells) for r in reps2]} if st2 == "ok" else {"err": reps2}
             if d2 != d:
@@ -468,8 +674,101 @@ def correspondence(ctx):
             ctx.fail(f"bootstrap refuses a complete positive triangle ({reps})" +
                      (" with a field selection (D18 recurrence?)" if field is not None else ""), shown, {"impl": d})
         reqs.append({"op": "bootstrap", "t": wire_t, "n": n, "field": None if field is None else sel,
-                     "P": P, "impl": d.get("ok")})
+                     "P": P, "impl": d.get("ok"), "identity": bool(identity)})
         post.append(("bootstrap", shown, d))
+        # the arithmetic of every maximum-entropy slice: series, the uniform draws AS DRAWN from the slice's seeded
+        # generator, L = (0, max) -> the model's replicate (within 2^-40) and the Spec clauses
+        if st == "ok" and n > 0:
+            budget = 12
+            for sl, U in me_draws_of:
+                if U is None:
+                    continue
+                for (i, f), (u, vals) in U.items():
+                    xs = [c.values.get(f) for c in sl.cells]
+                    if any(v is None for v in xs) or len(xs) < 2 or all(xs[0] == v for v in xs[1:]):
+                        continue
+                    if u is None:
+                        ctx.fail("bootstrap (maximum entropy): no uniform draws were taken from the slice's seeded "
+                                 "generator for this replicate and field", shown, {"replicate": i, "field": f})
+                        continue
+                    if budget <= 0 or any(v is None for v in vals) or len(vals) != len(xs):
+                        continue
+                    budget -= 1
+                    L = (0, max(xs))
+                    ctx.count("bootstrap/me-slice-arithmetic")
+                    if min(vals) < L[0] or max(vals) > L[1]:
+                        ctx.count("bootstrap/me-outside-L")
+                    reqs.append(me_request(xs, u, L, vals))
+                    post.append(("me", {"stream": "bootstrap", "x": [float(v) for v in xs], "U": u, "L": L,
+                                        "replicate": i, "field": f, "bootstrap": {"n": n, "seed": seed, "t": wire_t}},
+                                 {"ok": [num_wire(v) for v in vals]}))
+        return st, reps
+
+    def pick_field(fields):
+        sel_kind = rng.choice(["none", "none", "str", "subset", "all"])
+        all_fields = sorted(fields)
+        if sel_kind == "none":
+            return None, all_fields, sel_kind
+        if sel_kind == "str":
+            f = rng.choice(all_fields)
+            return f, [f], sel_kind
+        if sel_kind == "subset":
+            sel = rng.sample(all_fields, rng.randrange(1, len(all_fields) + 1))
+            return list(sel), sel, sel_kind
+        sel = list(all_fields)
+        rng.shuffle(sel)
+        return list(sel), sel, sel_kind
+
+    n_boot = 2500 if ctx.thorough else 150
+    for ci in range(n_boot):
+        late = rng.random() < 0.12
+        t, fields, shapes, kind = boot_triangle(rng, late=late)
+        n = rng.choice([1, 2, 3])
+        if rng.random() < 0.03 and len(t) <= 12:
+            n = 40                                              # size threshold: 40 replicates
+        seed = rng.choice([None, 0, 0, 7] + [rng.randrange(1 << 31)] * 6)
+        field, sel, sel_kind = pick_field(fields)
+        if rng.random() < 0.04:
+            n = rng.choice([0, -1])
+        stream = "late-slice" if late else "plain"
+        default_field = field is None and rng.random() < 0.5
+        if not late and rng.random() < 0.3:
+            # SEQUENCE: bootstrap a triangle that is itself the result of thin (a scalar triangle has one
+            # "sample"; k = 0 gives a fresh copy) after its accessors were read
+            accessors(t)
+            st0, t0 = call(thin, t, 0, 3)
+            if st0 == "ok" and t0 is not t and w_cells(t0.cells) == w_cells(t.cells):
+                check_accessors(ctx, t0, "thin(k=0) of a scalar triangle", {"t": w_cells(t.cells)})
+                t, stream = t0, "bootstrap-of-thinned"
+            else:
+                ctx.fail("thin(t, 0) of a scalar triangle must be a fresh triangle with the same cells",
+                         {"t": w_cells(t.cells)}, {"impl": st0})
+        elif not late and rng.random() < 0.2:
+            # DERIVED INPUT WITH WARM CACHES: a parent with one more slice, every cached accessor read, the
+            # input filtered out of it, default arguments
+            extra, _, _, _ = boot_triangle(rng)
+            own = {c.metadata for c in t.cells}
+            extra_cells = [c for c in extra.cells if c.metadata not in own]
+            cls = type(t.cells[0])
+            extra_cells = [c for c in extra_cells if type(c) is cls]
+            if extra_cells:
+                parent = Triangle(list(t.cells) + extra_cells)
+                accessors(parent)
+                parent.dev_lags(), parent.slices, parent.periods, parent.fields, parent.evaluation_dates
+                st0, t0 = call(parent.filter, lambda c: c.metadata in own)
+                if st0 == "ok" and w_cells(t0.cells) == w_cells(t.cells):
+                    t, stream = t0, "derived-warm-cache"
+        st, reps = boot_case(t, fields, shapes, n, seed, field, sel, sel_kind, stream, default_field=default_field,
+                             sample=ci < 3)
+        if st == "ok" and n > 0 and rng.random() < 0.15:
+            # TWIN: same coordinates, metadata, sizes and seed — different values (rescaled by 2, exact)
+            twin = Triangle([c.replace(values={k: (v * 2) for k, v in c.values.items()}) for c in t.cells])
+            boot_case(twin, fields, shapes, n, seed, field, sel, sel_kind, "twin")
+        if n > 0 and rng.random() < 0.2:
+            # IDENTITY DRAWS: every period keeps its own factors -> the source is reproduced (chained product from
+            # the unchanged first cell), whatever the shape; maximum-entropy slices draw as usual
+            boot_case(t, fields, shapes, min(n, 2), seed if seed is not None else 3, field, sel, sel_kind,
+                      "identity-draws", identity=True)
 
     # (iii) thin, incl. SEQUENCES: thin(thin(t)), moment_match then thin -----------------------------------
     def thin_case(t, k, seed, via, tag, sample=False, default_seed=False):
@@ -517,6 +816,8 @@ def correspondence(ctx):
     for ci in range(n_thin):
         with_arrays = rng.random() < 0.9
         N = rng.randrange(2, 9)
+        if ci in (2, 3):
+            with_arrays, N = True, [80, 1000][ci - 2]            # size thresholds: 80 / 1000 samples per array
         t, fields, fk = sample_triangle(rng, N, with_arrays, arr1=rng.random() < 0.7)
         tag = "single"
         if with_arrays and rng.random() < 0.25 and not any(k == "arr1" for k in fk.values()):
@@ -542,7 +843,9 @@ def correspondence(ctx):
     n_mm = 2500 if ctx.thorough else 200
     for ci in range(n_mm):
         big = rng.random() < 0.25
-        N = rng.choice([40, 64]) if big else rng.randrange(2, 9)
+        N = rng.choice([40, 64, 80]) if big else rng.randrange(2, 9)
+        if ci in (1, 2):
+            big, N = True, 256                                   # size threshold (numpy switches sort kernels)
         t, fields, fk = sample_triangle(rng, N, True, arr1=False)   # a 1-sample array has variance 0: gamma undefined
         names = rng.sample(fields, rng.randrange(0, len(fields) + 1))
         bad_name = rng.random() < 0.05
@@ -557,13 +860,16 @@ def correspondence(ctx):
             res = call(moment_match, t, names, dist)
         st, out = res
         d = {"ok": w_cells(out.cells)} if st == "ok" else {"err": out}
-        draws, it = [], iter(rec.legacy)
+        draws, it, ita = [], iter(rec.legacy), iter(rec.legacy_args)
         if st == "ok":
             for f in names:
                 for i, c in enumerate(t.cells):
                     if type(c.values.get(f)) is np.ndarray:
                         nm, vals = next(it, (None, []))
                         draws.append([i, f, rats(vals)])
+                        sampler_args(ctx, reqs, post, c.values[f], next(ita, (None, (), {})), dist,
+                                     {"field": f, "cell": i, "distribution": dist, "np.random.seed": seed,
+                                      "samples": [float(x) for x in c.values[f].tolist()]})
                         if len(vals) != c.values[f].size:
                             ctx.fail("moment_match: the sampler is asked for a different number of samples than the "
                                      "source array holds", {"t": w_cells(t.cells), "field_names": names,
@@ -617,6 +923,33 @@ def correspondence(ctx):
             if model != rats(d) and shown["which"] != "sort_x_on_y-ties":
                 ctx.disagree(f"reimposeRank vs {shown['which']}", shown, model, rats(d))
             continue
+        if kind == "moments":
+            continue
+        if kind == "me":
+            info = out.get("info") or {}
+            if ("err" in d) != ("err" in model) or ("err" in d and d["err"] != model["err"]):
+                ctx.disagree("maximum_entropy_ensemble vs maxEntropy: outcome", shown, model, d)
+            elif "ok" in d and spec is None:
+                # degenerate series (single value / constant): returned unchanged, compared exactly incl. kind
+                if model["ok"] != d["ok"]:
+                    ctx.disagree("maximum_entropy_ensemble vs maxEntropy: unchanged series", shown, model, d)
+            elif "ok" in d:
+                lim = [Fraction(x) for x in info.get("lim", [])]
+                vals = [Fraction(v[1]) for v in d["ok"]]
+                unit = all(0 <= u < 1 for u in shown["U"])
+                if lim and (min(vals) < lim[0] or max(vals) > lim[1]):
+                    # with draws in [0, 1): only possible when the limits do not bind (Properties.C17.me_within_limits,
+                    # me_exceeds_upper_limit); a breach WITH binding limits beyond 2^-40 is the `limits` clause above
+                    ctx.count("me/outside-limits-" + ("draw-outside-unit-interval" if not unit else
+                                                      "within-tolerance" if info.get("bind") else "nonbinding(theorem)"))
+                    if unit and not info.get("bind") and "D26" not in ctx.known_hits:
+                        # the property's words "within the given limits" are FALSE of the code (and of the model:
+                        # Properties.C17.me_exceeds_upper_limit) exactly on this signature: draws in [0, 1), limits
+                        # given, Resample.limitsBind false. Recorded defect D26 (known_findings.json), not repaired.
+                        ctx.known("D26", D26_TEXT, {"x": shown.get("x"), "U": shown.get("U"), "L": shown.get("L"),
+                                                    "replicate": [str(v) for v in vals], "limits": [str(v) for v in lim]})
+                ctx.count("me/limitsBind=" + str(bool(info.get("bind"))))
+            continue
         if "err" in d or "err" in model:
             if ("err" in d) != ("err" in model):
                 ctx.disagree(f"{kind}: one side raises", shown, model, d)
@@ -636,38 +969,77 @@ def correspondence(ctx):
 if __name__ == "__main__":
     common.run_check(
         "C17", module="Bermuda.Properties.C17", driver_targets=["drv_c17"],
-        correspondence=correspondence, level="translation_validation",
+        correspondence=correspondence, level="proof",
         rule="(i') guards of maximum_entropy_ensemble vs meEnsembleRaw: single values, constant series (incl. None only), "
              "non-constant series with None (ValueError), None-free series; "
-             "(i) random series with and without ties through maximum_entropy_ensemble (with/without L) and "
-             "_sort_x_on_y_rank; (ii) bootstrap of complete rectangular / upper-left / single row, column, diagonal, "
-             "cell triangles, 1-3 slices (same or different shapes), 1-6 periods and lags spaced by the evaluation "
-             "resolution (1,3,6,12 months), positive int/float fields with exactly representable age-to-age ratios, a "
-             "zero field, n 1-3 (and n<=0), field None/str/subset/all; (iii) thin of sample triangles (2-8 distinct "
+             "(i) random series with and without ties (1-8 values, and 40/256/1000) through maximum_entropy_ensemble "
+             "(with/without L) and _sort_x_on_y_rank; "
+             "(i'') maximum_entropy_ensemble against the model of its WHOLE arithmetic: series of 1/2/3/4-16/40/256/1000 "
+             "values (int, float, mixed, negative, constant, near-constant, tied, unevenly spaced, sorted, reversed, twin "
+             "of the previous call), limits None / (0, max) / tight / wide / lopsided / inside the data, draws random / on "
+             "the grid points i/n and one ulp below / duplicated / more draws than values / (rarely) outside [0, 1), "
+             "called twice with the first result ruined, arguments checked unmodified; "
+             "(ii) bootstrap of complete rectangular / upper-left / single row, column, diagonal, cell triangles, a "
+             "40-48 cell row, a row with evaluation dates on the 15th, NON-DISJOINT periods (same start, different "
+             "end), 1-3 slices (same or different shapes) and 3-5 slices whose LAST slice alone is routed to the other "
+             "method, 1-6 periods and lags spaced by the evaluation resolution (1,3,6,12 months), positive int/float "
+             "fields with exactly representable age-to-age ratios, fields 0 / 0.0 in every cell, n 1-3, 40 (and "
+             "n<=0), field None (explicit and by default) / str / subset / all, seed None / 0 / 7 / random; every "
+             "maximum-entropy slice additionally through the arithmetic model with the uniform draws as recorded; "
+             "streams: twin triangle (same coordinates and seed, values doubled), derived input filtered out of a "
+             "parent whose cached accessors were read, bootstrap of a thinned triangle, IDENTITY index draws (the "
+             "source must be reproduced); (iii) thin of sample triangles (2-8, 80, 1000 distinct "
              "samples, scalars, length-1 arrays, mixed) for k below, at and above the sample count, seeds incl. None; "
-             "(iv) moment_match on the same kind of triangle, three distributions, field subsets, bad names; "
+             "(iv) moment_match on the same kind of triangle (2-8, 40-80, 256 samples), three distributions, field "
+             "subsets, bad names, with the arguments handed to numpy's sampler recorded; "
              "SEQUENCES: thin of a thinned triangle (k at / above / below ITS count), thin after moment_match, bootstrap "
              "of a thinned triangle, every operation twice on the same input (first result's new arrays zeroed in "
              "between), default seed argument, accessors (num_samples, fields, slices, periods, evaluation_dates) read "
              "on inputs beforehand and compared on every output with values recomputed from its cells. "
-             "distinct = distinct canonical input; non-trivial = more than one cell / sample",
+             "distinct = distinct canonical input; non-trivial = more than one cell / sample / value",
         assumptions=[
             "OUTSIDE THE MODEL: numpy's RNG. Generator.choice/uniform of np.random.default_rng and np.random.normal/"
-            "lognormal/gamma are wrapped in-process; the drawn vectors are recorded and handed to the model",
-            "OUTSIDE THE MODEL (statistical): the age-to-age resampling DISTRIBUTION (volume weights), the maximum-"
-            "entropy quantile construction, and moment_match's mean/variance. NUMERIC-ONLY checks in Python: "
-            "moment_match mean within 6 sigma/sqrt(n) and std within [0.2, 5] x source on 40-64 samples; how often a "
-            "maximum-entropy replicate leaves [L0, L1] is only COUNTED (Vinod's mean-preserving shift is not bounded "
-            "by L; see notes/agents/c16c17.md)",
+            "lognormal/gamma are wrapped in-process; the drawn index vectors, uniform draws and sample vectors are "
+            "recorded and handed to the model as parameters (for the identity stream the wrapped choice answers "
+            "[0..m-1]: one admissible value of the parameter)",
+            "PARTIAL, what is now INSIDE the model (exact rationals, theorems for every draw): the whole arithmetic of "
+            "maximum_entropy_ensemble (trimmed-mean / explicit limits, interval ends, mean-preserving shift, "
+            "piecewise-linear quantile function, sorted(quantiles), rank re-imposition; me_within_limits, me_envelope, "
+            "me_quantile_mono, me_output), the empirical age-to-age factors, their resampling by the drawn positions "
+            "and the chained product from the unchanged first cell (develop_value, chain_identity, "
+            "bootstrapD_is_bootstrap), the mean / population variance / count handed to moment_match's sampler and "
+            "the gamma parameters (gamma_params_match). STILL OUTSIDE (statistical): the DISTRIBUTION of the draws "
+            "(volume weights `p` of rng.choice incl. eval_date_resolution, uniformity of rng.uniform, the samplers), "
+            "hence the realised mean/variance of moment-matched samples; the lognormal parameters (log / sqrt). "
+            "NUMERIC-ONLY checks in Python: moment_match mean within 6 sigma/sqrt(n) and std within [0.2, 5] x source "
+            "on 40-256 samples; lognormal parameters reproduce mean and variance within 1e-9 / 1e-8",
+            "'within the given limits': the construction keeps the replicate inside [L0, L1] exactly when "
+            "Resample.limitsBind holds (always for the trimmed-mean limits; for bootstrap's L = (0, max x) iff the "
+            "two smallest values satisfy x0 + x1/2 <= max x) — theorems me_within_limits, me_bootstrap_limits, "
+            "counterexample me_exceeds_upper_limit; the Spec clause `limits` enforces it under that condition, "
+            "an excursion with non-binding limits and draws in [0, 1) is the recorded defect D26 (known_findings.json: "
+            "KNOWN-FINDING line, exit 0 for that signature only; any excursion with BINDING limits is a violation), see "
+            "notes/agents/c17b.md",
+            "float64 vs exact rationals in maximum_entropy_ensemble (true division, np.linspace grid, np.mean of the "
+            "trimmed differences): values compared with tolerance 2^-40 RELATIVE TO THE MAGNITUDE OF THE SERIES "
+            "(absolute slack 2^-40 x max(|x|, |L|)), in the harness/Spec slack only; grid-point draws are generated for "
+            "power-of-two lengths only (i/n exact). Sampler arguments: mean 2^-40, variance 2^-34 relative",
             "domain restriction: the age-to-age bootstrap needs development lags spaced by the evaluation resolution; "
             "positive scalar values; source values chosen so that every age-to-age ratio and product is exact in "
-            "float64 (compared exactly)",
-            "maximum-entropy replicates: the model is run on the implementation's own sorted quantiles (fixed-point "
-            "check of the rank order, ties by index)",
+            "float64 (compared exactly); fewer uniform draws than values are outside the model (Err.other)",
+            "maximum-entropy replicates inside `bootstrap`: the triangle-level model is run on the implementation's own "
+            "sorted quantiles (fixed-point check of the rank order, ties by index); the values themselves are checked "
+            "by the `me` requests (series, recorded draws, L = (0, max))",
+            "identity resampling reproduces the triangle: theorem at the level of a row's chained product "
+            "(chain_identity, gather_identity); on whole triangles it is correspondence-only (stream identity-draws: "
+            "model and implementation must both return the source, Spec.C17.reproducesSlice)",
             "seed reproducibility is observed by calling twice, not proved",
             "arrays are 1-D; with TIED source samples numpy's default argsort (not stable, observed) decides the order "
             "inside a tie in _sort_x_on_y_rank: there only `xs[i] < xs[j] -> r[i] <= r[j]` and the permutation clause "
             "are checked; moment_match triangles are generated with pairwise distinct samples",
         ],
-        trusted=["numpy fancy indexing v[ndxs], argsort, sorted() as modelled (Model/Resample.lean)"],
+        trusted=["numpy fancy indexing v[ndxs], argsort, sorted(), np.searchsorted(side='right'), np.linspace, "
+                 "scipy.stats.trim_mean (int(0.1*n) = n // 10) as modelled (Model/Resample*.lean)",
+                 "@[csimp] Resample.reimposeRank_eq_A (kernel-checked) replaces the list-based rank by an array-based "
+                 "one in compiled code"],
     )
